@@ -74,20 +74,21 @@ fn ofd_id(rc: &Rc<RefCell<OpenFileDescription>>) -> usize {
     })
 }
 
-/// Content as 3-byte units: `XY\n` -> "XY", three NULs -> "00", else "??".
+/// Content as 3-byte units: `XY\n` -> "XY", three NULs -> "00".  A content
+/// that is not made of such units (diagnostics were written to the file) is
+/// reported as the single token "!!": present, regular, content not tracked.
 pub fn tokens(content: &[u8]) -> Vec<String> {
-    content
-        .chunks(3)
-        .map(|c| {
-            if c.len() == 3 && c[2] == b'\n' && c[0].is_ascii_alphanumeric() && c[1].is_ascii_alphanumeric() {
-                format!("{}{}", c[0] as char, c[1] as char)
-            } else if c.len() == 3 && c.iter().all(|&b| b == 0) {
-                "00".to_string()
-            } else {
-                "??".to_string()
-            }
-        })
-        .collect()
+    let mut out = vec![];
+    for c in content.chunks(3) {
+        if c.len() == 3 && c[2] == b'\n' && c[0].is_ascii_alphanumeric() && c[1].is_ascii_alphanumeric() {
+            out.push(format!("{}{}", c[0] as char, c[1] as char));
+        } else if c.len() == 3 && c.iter().all(|&b| b == 0) {
+            out.push("00".to_string());
+        } else {
+            return vec!["!!".to_string()];
+        }
+    }
+    out
 }
 
 fn short_name(real: &str) -> String {
